@@ -493,6 +493,22 @@ func runE1(c *vf.Ctx, id string) {
 	for i, s := range file {
 		jobs = append(jobs, job{"file", i, len(s.Bytes)})
 	}
+	if nm := os.Getenv("VERIF_E1_SEED"); nm != "" { // debugging aid: only the seeds whose name contains the text
+		var jj []job
+		for _, j := range jobs {
+			name := ""
+			if j.level == "box" {
+				name = box[j.idx].Name
+			} else {
+				name = file[j.idx].Name
+			}
+			if strings.Contains(name, nm) {
+				jj = append(jj, j)
+			}
+		}
+		jobs = jj
+		c.Cap("debug filter VERIF_E1_SEED=" + nm)
+	}
 	if only := os.Getenv("VERIF_E1_ONLY"); only != "" {
 		var jj []job
 		for _, j := range jobs {
